@@ -243,6 +243,20 @@ def _observe_row(case):
         out["as_json"] = [[k, pool.jclass(v)] for k, v in doc[1:]]
     except Exception as e:
         out["as_json"] = _exc(e)
+    # the views are views: a caller editing the dictionary it was handed must not change what
+    # the row reports afterwards (re-read after mutating the returned object)
+    try:
+        m1 = row.as_dict
+        m1["__verif_edit__"] = 1
+        for k in list(m1):
+            if k != "__verif_edit__":
+                m1[k] = "edited"
+                break
+        m2 = row.as_dict
+        out["as_dict_again"] = [[_name(k), pool.vid(v)] if k != "__verif_edit__" else ["__verif_edit__", -1] for k, v in m2.items()] \
+            if all((k == "__verif_edit__") or (v is not "edited") for k, v in m2.items()) else ["edited-value-visible"]
+    except Exception as e:
+        out["as_dict_again"] = _exc(e)
     gets = []
     for name, di in case["lookups"]:
         try:
@@ -345,6 +359,9 @@ def _oracle_row(case, obs):
         got[k] = v
     if got != assoc:
         return f"as_dict must be the association {assoc}, got {obs['as_dict']}"
+    if "as_dict_again" in obs and obs["as_dict_again"] != obs["as_dict"]:
+        return (f"as_dict read again after the caller edited the dictionary it was handed must still be the row's association "
+                f"{obs['as_dict']}, got {obs['as_dict_again']}")
     jt = dict((a, b) for a, b in obs["jtable"])
     jassoc = {f: jt[v] for f, v in assoc.items()}
     gotj = {}
